@@ -1156,6 +1156,32 @@ def VariantShape.size : VariantShape → Nat
   | .struct_ fs => Schema.sizeFields fs + 1
 end
 
+mutual
+/-- the schema has a target whose number literals are converted to floats while parsing (`f64`, `f32`, `Value`):
+    the sites of the inherent `NumberOutOfRange` exception of C10 -/
+def Schema.rangeSite : Schema → Bool
+  | .f64 | .f32 | .any => true
+  | .option s | .newtype s | .seq s | .map _ s => Schema.rangeSite s
+  | .tuple ss => Schema.rangeSiteList ss
+  | .struct_ fs _ => Schema.rangeSiteFields fs
+  | .enum_ vs => Schema.rangeSiteVariants vs
+  | _ => false
+def Schema.rangeSiteList : List Schema → Bool
+  | [] => false
+  | s :: r => Schema.rangeSite s || Schema.rangeSiteList r
+def Schema.rangeSiteFields : List (Bytes × Schema) → Bool
+  | [] => false
+  | (_, s) :: r => Schema.rangeSite s || Schema.rangeSiteFields r
+def Schema.rangeSiteVariants : List (Bytes × VariantShape) → Bool
+  | [] => false
+  | (_, sh) :: r => VariantShape.rangeSite sh || Schema.rangeSiteVariants r
+def VariantShape.rangeSite : VariantShape → Bool
+  | .unit => false
+  | .newtype s => Schema.rangeSite s
+  | .tuple ss => Schema.rangeSiteList ss
+  | .struct_ fs => Schema.rangeSiteFields fs
+end
+
 /-- `seed.deserialize(&mut de)` for the universal seed of schema `s`, with `t` typed containers open,
     on the unread input `rest` at absolute index `pos`. One row per `deserialize_*` (DESIGN App. A). -/
 def deTyped (env : Env) : Nat → Nat → Schema → Bytes → Nat → TOut
